@@ -46,7 +46,10 @@ RULE = ("cases come from one PRNG seeded by VERIF_SEED plus fixed catalogues: th
         "a key derivation or a codec; distinct = distinct request lines / predicate cases; object-reuse histories: one "
         "HDPrivateKey traversed along several paths and one key object per path asked for xprv/xpub in varying prefixes, "
         "raw_serialize(), repeated and different children and public traversals in one process, every answer compared "
-        "with the stateless model on the current arguments")
+        "with the stateless model on the current arguments; keys at every kind of position (depth 0..8 — quick 0,1,2,3,5,8 — "
+        "last index 0, 1, 2^31-1, 2^31, 2^31+1, 2^32-1 and random hardened / normal, all 20 prefixes in rotation): parse of "
+        "the string and raw_parse of the 78 bytes compared field by field with the model, with the BIP32 layout of the true "
+        "fields and with the position, re-serialised, derived from further, and one parsed object per key asked repeatedly")
 CLAUSES = {
     "private then public = public derivation, every field (i < 2^31)":
         "proved (pub_priv_child_consistent, pub_priv_child_converse, priv_pub_traverse_consistent; the zero child key / point at "
@@ -164,6 +167,17 @@ def _impl(t):
             except Exception:
                 b = "unserialisable"
         return f"{a} | {b}"
+    if op == "px_trav":
+        return dump_priv(HDPrivateKey.parse(uns(t[1])).traverse(uns(t[2])))
+    if op in ("priv_raw_parse", "pub_raw_parse"):
+        import io
+        cls = HDPrivateKey if op == "priv_raw_parse" else HDPublicKey
+        k = cls.raw_parse(io.BytesIO(unx(t[1])), network=(None if t[2] == "-" else uns(t[2])))
+        return dump_priv(k) if op == "priv_raw_parse" else dump_pub(k)
+    if op == "spec_xprv":      # the implementation re-serialising what it parsed, against the BIP32 layout of the true fields
+        return xs(HDPrivateKey.parse(uns(t[7])).xprv())
+    if op == "spec_xpub":
+        return xs(HDPublicKey.parse(uns(t[7])).xpub())
     if op == "valid_path":
         return "1" if is_valid_bip32_path(uns(t[1])) else "0"
     if op == "combine":
@@ -248,8 +262,8 @@ def impl_history(lines):
     for xprv / xpub in several version prefixes, raw_serialize(), children and public traversals in sequence.  A memo
     kept on a key object (HDPublicKey._raw) or any other state leaking between calls shows up as an answer that differs
     from the stateless model evaluated on the current arguments."""
-    from buidl.hd import HDPrivateKey
-    roots, keys, out = {}, {}, []
+    from buidl.hd import HDPrivateKey, HDPublicKey
+    roots, keys, parsed, out = {}, {}, {}, []
     for line in lines:
         t = line.split(" ")
         try:
@@ -268,6 +282,28 @@ def impl_history(lines):
                     if (rk, path) not in keys:
                         keys[(rk, path)] = root.traverse(path)
                     out.append(_k_step(op, keys[(rk, path)], t))
+            elif op in PX_OPS:
+                # one object per extended-key string, parsed once and then asked repeatedly
+                cls = HDPrivateKey if op in ("priv_parse", "priv_child", "priv_ser", "px_trav") else HDPublicKey
+                if (cls.__name__, t[1]) not in parsed:
+                    parsed[(cls.__name__, t[1])] = cls.parse(uns(t[1]))
+                k = parsed[(cls.__name__, t[1])]
+                if op == "priv_parse":
+                    out.append(dump_priv(k))
+                elif op == "pub_parse":
+                    out.append(dump_pub(k))
+                elif op == "priv_child":
+                    out.append(dump_priv(k.child(int(t[2]))))
+                elif op == "pub_child":
+                    out.append(dump_pub(k.child(int(t[2]))))
+                elif op == "priv_ser":
+                    out.append(f"{xs(k.xprv(version=unx(t[2])))} {xs(k.xpub())}")
+                elif op == "pub_ser":
+                    out.append(xs(k.xpub(version=unx(t[2]))))
+                elif op == "px_trav":
+                    out.append(dump_priv(k.traverse(uns(t[2]))))
+                else:
+                    out.append(dump_pub(k.traverse(uns(t[2]))))
             else:
                 out.append(_impl(t))
         except (UnknownOp, MachineryError):
@@ -275,6 +311,9 @@ def impl_history(lines):
         except Exception:
             out.append(REJECT)
     return out
+
+
+PX_OPS = ("priv_parse", "priv_child", "priv_ser", "px_trav", "pub_parse", "pub_child", "pub_ser", "pub_trav")
 
 
 def impl_line(line):
@@ -385,7 +424,34 @@ def p_case_insensitive(c):
     return got == want, got, want
 
 
-PREDICATES = {"consistent": p_consistent, "hardened_refused": p_hardened_refused, "compose": p_compose,
+def p_position(c):
+    """an extended key at a given position of the tree (depth 0..8, last index hardened or not), serialised with one of
+    the 20 prefixes: parse returns every field BIP32 prescribes for that position, re-serialises to the same string,
+    raw_parse of the 78 bytes agrees, and deriving further from the parsed key gives the keys derived from the original"""
+    import io
+    from buidl.hd import HDPrivateKey, HDPublicKey
+    k = HDPrivateKey.parse(c["xprv"])
+    p = HDPublicKey.parse(c["xpub"])
+    kr = HDPrivateKey.raw_parse(io.BytesIO(bytes.fromhex(c["raw_prv"])))
+    pr = HDPublicKey.raw_parse(io.BytesIO(bytes.fromhex(c["raw_pub"])))
+    got, want = [], []
+    for o in (k, kr):
+        got.append([o.depth, o.parent_fingerprint.hex(), o.child_number, o.chain_code.hex(), o.private_key.secret,
+                    o.priv_version.hex()])
+        want.append([c["depth"], c["pfp"], c["index"], c["cc"], c["secret"], c["pv"]])
+    for o in (p, pr):
+        got.append([o.depth, o.parent_fingerprint.hex(), o.child_number, o.chain_code.hex(), o.point.sec().hex(),
+                    o.pub_version.hex()])
+        want.append([c["depth"], c["pfp"], c["index"], c["cc"], c["sec"], c["bv"]])
+    if got != want:
+        return False, got, want
+    got = [k.xprv(), p.xpub(), kr.xprv(), pr.xpub(), k.child(7).xprv(), k.child(2**31 + 7).xprv(), k.traverse("m/1/2h").xprv(),
+           p.child(7).xpub(), p.traverse("M/3/4").xpub(), k.xpub(version=bytes.fromhex(c["bv"]))]
+    want = [c["xprv"], c["xpub"], c["xprv"], c["xpub"]] + c["derived"] + [c["xpub"]]
+    return got == want, got, want
+
+
+PREDICATES = {"position": p_position, "consistent": p_consistent, "hardened_refused": p_hardened_refused, "compose": p_compose,
               "roundtrip": p_roundtrip, "vector": p_vector, "blind": p_blind, "case_insensitive": p_case_insensitive}
 
 
@@ -426,12 +492,44 @@ def rand_path(rng, maxdepth=8, hardened=True, upper=True):
     return rng.choice(["m", "M"] if upper else ["m"]) + "".join("/" + c for c in comps)
 
 
+LAST_INDEXES = [0, 1, 2**31 - 1, 2**31, 2**31 + 1, 2**32 - 1]
+
+
+def _mk_positions(a):
+    """(seed, net, prefix indexes, [(last index, priv version, pub version)]) -> one record per key m/prefix/last with the
+    fields BIP32 prescribes for that position (depth = number of derivations, parent fingerprint taken from the parent,
+    child number = last index) and the strings derived from the ORIGINAL key object"""
+    from buidl.hd import HDPrivateKey
+    seed, net, prefix, lasts = a
+    parent = HDPrivateKey.from_seed(seed, network=net)
+    for i in prefix:
+        parent = parent.child(i)
+    out = []
+    for last, pv, bv in lasts:
+        if last is None:      # the root itself
+            k, depth, pfp, idx = parent, 0, "00000000", 0
+        else:
+            k, depth, pfp, idx = parent.child(last), len(prefix) + 1, parent.fingerprint().hex(), last
+        vp, vb = bytes.fromhex(pv), bytes.fromhex(bv)
+        derived = [k.child(7).xprv(version=vp), k.child(2**31 + 7).xprv(version=vp), k.traverse("m/1/2h").xprv(version=vp),
+                   k.pub.child(7).xpub(version=vb), k.pub.traverse("m/3/4").xpub(version=vb)]
+        out.append({"xprv": k.xprv(version=vp), "xpub": k.xpub(version=vb), "depth": depth, "pfp": pfp, "index": idx,
+                    "cc": k.chain_code.hex(), "secret": k.private_key.secret, "sec": k.pub.point.sec().hex(),
+                    "pv": pv, "bv": bv, "derived": derived, "net": net,
+                    "raw_prv": k.raw_serialize(vp).hex(), "raw_pub": k.pub._serialize(vb).hex(),
+                    "path": "m" + "".join(f"/{i}" for i in list(prefix) + ([] if last is None else [last]))})
+    return out
+
+
 def _mk_key(a):
     """(seed, net, pv, bv, path) -> (xprv, xpub, secret, chain code, sec) computed by the implementation"""
     from buidl.hd import HDPrivateKey
     seed, net, pv, bv, path = a
     k = HDPrivateKey.from_seed(seed, network=net, priv_version=pv, pub_version=bv).traverse(path)
-    return k.xprv(), k.xpub(), k.private_key.secret, k.chain_code, k.pub.point.sec()
+    # the strings in all 20 prefixes come from the ORIGINAL object (never through parse: the generator must not depend
+    # on the code path it is about to examine)
+    return (k.xprv(), k.xpub(), k.private_key.secret, k.chain_code, k.pub.point.sec(),
+            [k.xprv(version=bytes.fromhex(v)) for v in PRIV_VERSIONS], [k.xpub(version=bytes.fromhex(v)) for v in PUB_VERSIONS])
 
 
 def run(ctx):
@@ -471,7 +569,7 @@ def run(ctx):
         net = NETS[k % 4]
         specs.append((rng.choice(seeds), net, None, None, rand_path(rng, maxdepth=3, upper=False)))
     keys = pmap(_mk_key, specs, workers=ctx.workers)
-    for (xprv, xpub, secret, cc, sec_) in keys:
+    for (xprv, xpub, secret, cc, sec_, _allprv, _allpub) in keys:
         idxs = BOUNDARY_INDEXES[:] if len(lines) < 400 else BOUNDARY_INDEXES[3:7]
         idxs += [rng.randrange(2**31), rng.randrange(2**31, 2**32)]
         for i in idxs:
@@ -512,8 +610,7 @@ def run(ctx):
         preds.append(("roundtrip", {"kind": "pub", "x": xpub, "version": PUB_VERSIONS[vi]}))
     lines.append(("priv_ser", f"priv_ser {xs(keys[0][0])} x{PUB_VERSIONS[0]}"))   # a public version on a private key
     lines.append(("pub_ser", f"pub_ser {xs(keys[0][1])} x01020304"))
-    reser = pmap(_reserialise, [(keys[vi % len(keys)][0], keys[vi % len(keys)][1], PRIV_VERSIONS[vi], PUB_VERSIONS[vi])
-                                for vi in range(10)], workers=ctx.workers)
+    reser = [(keys[vi % len(keys)][5][vi], keys[vi % len(keys)][6][vi]) for vi in range(10)]
     alphabet = "123456789ABCDEFGHJKLMNPQRSTUVWXYZabcdefghijkmnopqrstuvwxyz0OIl "
     for sprv, spub in reser:
         lines.append(("priv_parse", f"priv_parse {xs(sprv)}"))
@@ -560,11 +657,55 @@ def run(ctx):
         vi = rng.randrange(10)
         pub_version = PUB_VERSIONS[vi] if (vi < 5) == (net == "mainnet") else PUB_VERSIONS[(vi + 5) % 10]
         preds.append(("blind", {"seed": seed.hex(), "net": net, "p": p, "s": s, "version": pub_version}))
-    for (xprv, xpub, _, _, _), sp in zip(keys, specs):
+    for (xprv, xpub, _, _, _, _, _), sp in zip(keys, specs):
         start = sp[4]
         lines.append(("blind", f"blind {xs(xpub)} {xs(start)} {xs(rand_path(rng, maxdepth=3, hardened=False))}"))
         lines.append(("blind_bad", f"blind {xs(xpub)} {xs(start + '/1')} {xs('m/1')}"))
         lines.append(("blind_bad", f"blind {xs(xpub)} {xs(start)} {xs(rng.choice(BAD_PATHS + ['m/1h', 'M/1', 'm/1//2']))}"))
+
+    # ---- keys at every kind of position: depth 0..8, last index hardened / non-hardened incl. the boundaries; each is
+    # serialised with one of the 20 prefixes, parsed (string and raw 78 bytes), compared field by field with the model,
+    # with the BIP32 layout of the true fields (spec_xprv / spec_xpub) and with the position it was derived at, re-serialised,
+    # and derived from further (child, traverse) against the original object
+    depths = list(range(1, 9)) if ctx.thorough else [1, 2, 3, 5, 8]
+    tasks, vi = [], 0
+    for rep in range(ctx.n(1, 3)):
+        seed = rng.choice(seeds)
+        lasts0 = []
+        for d in [0] + depths:
+            net = rng.choice(NETS)
+            prefix = [rand_index(rng) + (2**31 if rng.random() < 0.5 else 0) for _ in range(max(d - 1, 0))]
+            cand = [None] if d == 0 else LAST_INDEXES + [rng.randrange(2**31, 2**32), rng.randrange(2**31)]
+            lasts = []
+            for last in cand:
+                lasts.append((last, PRIV_VERSIONS[vi % 10], PUB_VERSIONS[(vi * 3) % 10]))
+                vi += 1
+            tasks.append((seed, net, prefix, lasts))
+    positions = [r for out in pmap(_mk_positions, tasks, workers=ctx.workers, chunksize=1) for r in out]
+    pos_hists = []
+    for j, c in enumerate(positions):
+        x, y = c["xprv"], c["xpub"]
+        lines.append(("position:priv_parse", f"priv_parse {xs(x)}"))
+        lines.append(("position:pub_parse", f"pub_parse {xs(y)}"))
+        lines.append(("position:spec_xprv", f"spec_xprv x{c['pv']} {c['depth']} x{c['pfp']} {c['index']} x{c['cc']} {c['secret']} {xs(x)}"))
+        lines.append(("position:spec_xpub", f"spec_xpub x{c['bv']} {c['depth']} x{c['pfp']} {c['index']} x{c['cc']} x{c['sec']} {xs(y)}"))
+        fam = c["pv"] in PRIV_VERSIONS[5:]
+        netarg = "-" if (j % 3 or not fam) else xs(rng.choice(["signet", "regtest", "testnet"]))
+        lines.append(("position:priv_raw_parse", f"priv_raw_parse x{c['raw_prv']} {netarg}"))
+        famb = c["bv"] in PUB_VERSIONS[5:]
+        netarg = "-" if (j % 3 or not famb) else xs(rng.choice(["signet", "regtest", "testnet"]))
+        lines.append(("position:pub_raw_parse", f"pub_raw_parse x{c['raw_pub']} {netarg}"))
+        if j % 2 == 0:
+            lines.append(("position:px_trav", f"px_trav {xs(x)} {xs(rng.choice(['m/0', 'm/2147483648', 'm/1/2h', 'M/5H/6']))}"))
+            lines.append(("position:pub_trav", f"pub_trav {xs(y)} {xs(rng.choice(['m/0', 'm/3/4', 'm']))}"))
+        preds.append(("position", c))
+        if j % 5 == 0:
+            v2, b2 = "x" + PRIV_VERSIONS[(j + 3) % 10], "x" + PUB_VERSIONS[(j + 7) % 10]
+            pos_hists.append([f"priv_parse {xs(x)}", f"priv_child {xs(x)} 0", f"priv_ser {xs(x)} {v2}", f"px_trav {xs(x)} {xs('m/1/2h')}",
+                              f"priv_child {xs(x)} {2**31}", f"priv_child {xs(x)} 0", f"priv_parse {xs(x)}",
+                              f"pub_parse {xs(y)}", f"pub_child {xs(y)} 3", f"pub_ser {xs(y)} {b2}", f"pub_trav {xs(y)} {xs('m/3/4')}",
+                              f"pub_child {xs(y)} 3", f"pub_parse {xs(y)}", f"priv_ser {xs(x)} x{c['pv']}"])
+    rec.count("positions", len(positions))
 
     # ---- object-reuse histories: one root object traversed along several paths, one key object per path asked for
     # xprv/xpub in several prefixes, raw_serialize(), the same and different children, public traversals — in sequence
@@ -596,6 +737,8 @@ def run(ctx):
         order = sorted(range(len(steps)), key=lambda j: (j % 17) * 3 + rng.random() * 2.5 + (j // 17) * 0.1)
         hists.append([steps[j] for j in order])
 
+    hists += pos_hists   # … and one parsed object per positioned key asked repeatedly
+
     # ---- run both sides (shuffled so that the EC-heavy requests are spread over all workers)
     rng.shuffle(lines)
     rng.shuffle(preds)
@@ -615,6 +758,7 @@ def run(ctx):
     t2 = time.time()
     seen = {}
     for (kind, line), model, impl in zip(lines, answers, impls):
+        kind = kind.split(":")[0] if not kind.startswith("position") else kind
         t = line.split(" ")
         finding = None
         # input predicate of F08a: a public traverse (directly or inside blind_xpub) of a path spelled with `M`
@@ -651,12 +795,6 @@ def run(ctx):
     if flagged != REJECT:
         raise MachineryError("the flagged model of F08a does not reproduce the finding")
     rec.finding("F08a", not ok, w)
-
-
-def _reserialise(a):
-    from buidl.hd import HDPrivateKey, HDPublicKey
-    xprv, xpub, pv, bv = a
-    return (HDPrivateKey.parse(xprv).xprv(version=bytes.fromhex(pv)), HDPublicKey.parse(xpub).xpub(version=bytes.fromhex(bv)))
 
 
 def replay(ctx, v):
